@@ -177,19 +177,25 @@ def memo(ctx, d2):
     else:
         d2.fail('CompiledChemicals._get_index_and_kind', 'memo-differs', 'stored entry and returned value differ on a miss path, or no hit path returns the entry', f, f.node)
     g = prog.method('MaterialIndexer', '_get_index_data', rel=IX)
+    gps, _ = run_paths(prog.normal_form(g), follow_except=True, max_paths=4000)
     okk = True
     n = 0
-    for node in walk_no_nested(g.node):
-        if isinstance(node, ast.Assign) and len(node.targets) == 2 and any(isinstance(t, ast.Subscript) and src(t.value) == 'cache' for t in node.targets):
+    hits = 0
+    for p in gps:
+        if p.raised:
+            continue
+        st = [e for e in p.events if e.kind == 'store' and e.target.startswith('self._index_cache[')]
+        if st:
             n += 1
-            names = [t.id for t in node.targets if isinstance(t, ast.Name)]
-            if names != ['index_data']:
+            if p.ret is None or p.ret.pretty() != st[-1].value.pretty():
                 okk = False
-    rets = [r for r in walk_no_nested(g.node) if isinstance(r, ast.Return)]
-    okk = okk and n >= 2 and all(src(r.value) == 'index_data' for r in rets)
-    hits = [node for node in walk_no_nested(g.node) if isinstance(node, ast.Assign) and src(node.targets[0]) == 'index_data' and src(node.value) == 'cache[key]']
+        elif p.ret is not None and p.ret.pretty().startswith('self._index_cache['):
+            hits += 1
+        else:
+            okk = False        # a normal return that is neither the stored entry nor a freshly stored one
+    okk = okk and n >= 2
     if okk and hits:
-        d2.ok('MaterialIndexer._get_index_data', 'cache[key] = index_data = (...) on %d miss branches; hit and miss return index_data' % n, g)
+        d2.ok('MaterialIndexer._get_index_data', 'the entry stored on each of the %d miss paths is the value returned; the %d hit paths return the stored entry' % (n, hits), g)
     else:
         d2.fail('MaterialIndexer._get_index_data', 'memo-differs', 'the value stored in the cache is not the value returned', g, g.node)
     h = prog.func(IX, 'index_overlap')
@@ -226,6 +232,58 @@ def _is_list_expr(e, env):
     if isinstance(e, ast.Name) and e.id in env:
         return any(_is_list_expr(v, {}) for v in env[e.id])
     return False
+
+
+def _kind_justified_on_paths(f, idx, kind, isa_names, kind_ok):
+    """the same derivation written with statements: on every path that stores an entry the constant kind agrees with the type
+    tests taken on that path (0 <=> isinstance(index, int); 2 <=> some element of the index is a list; 3 otherwise)"""
+    from ..pathcond import implied
+    ps, trunc = run_paths(f.node, follow_except=True, max_paths=4000)
+    if trunc:
+        return False
+    n = 0
+    for p in ps:
+        if p.raised:
+            continue
+        defs = {}
+        for e in p.events:
+            if e.kind == 'assign' and isinstance(e.stmt, ast.Assign):
+                defs[e.target] = (e.stmt.value, e.value)
+        stores = [e for e in p.events if e.kind == 'store' and isinstance(e.stmt, ast.Assign) and isinstance(e.stmt.value, ast.Tuple)
+                  and len(e.stmt.value.elts) == 2 and src(e.stmt.value.elts[1]) == src(kind)]
+        for e in stores:
+            n += 1
+            kexpr, kform = defs.get(src(kind), (None, None))
+            if kexpr is None:
+                return False
+            if not isinstance(kexpr, ast.Constant):
+                # chained `kind = index = None` etc. are constants too; anything else must be one of the accepted expressions
+                if not kind_ok(kexpr):
+                    return False
+                continue
+            k = kexpr.value
+            is_int = implied(p.conds, lambda t: isinstance(t, ast.Call) and src(t.func) in isa_names and len(t.args) == 2
+                             and src(t.args[1]) == 'int' and src(t.args[0]) == src(idx))
+            loops = [l.stmt for l in p.events if l.kind == 'loop' and isinstance(l.stmt, ast.For) and src(l.stmt.iter) == src(idx)
+                     and isinstance(l.stmt.target, ast.Name)]
+            has_list = None
+            for lp in loops:
+                v = implied(p.conds, lambda t: isinstance(t, ast.Call) and src(t.func) in isa_names and len(t.args) == 2
+                            and src(t.args[1]) == 'list' and src(t.args[0]) == lp.target.id)
+                if v is not None:
+                    has_list = v
+            if k is None:
+                continue
+            if k == 0 and is_int is True:
+                continue
+            if k == 1 and is_int is False:
+                continue
+            if k == 2 and has_list is True:
+                continue
+            if k == 3 and loops and has_list is not True:
+                continue
+            return False
+    return n > 0
 
 
 def schema(ctx, d3):
@@ -282,6 +340,8 @@ def schema(ctx, d3):
                                     return True
                             return False
                         good = bool(vals) and all(kind_ok(x) for x in vals)
+                        if not good:
+                            good = _kind_justified_on_paths(f, idx, kind, isa_names, kind_ok)
                         if good:
                             d3.ok(f.qualname, 'kind is computed from the type of the index (%s)' % sorted(texts), f, node)
                         else:
@@ -416,12 +476,62 @@ def name_table(ctx, d5):
             d5.fail('CompiledChemicals.define_group', tag, 'define_group can give an existing name a new meaning but does not clear %s: a lookup made before the '
                     'redefinition keeps returning the old positions' % what, dg, st[0])
     sa = prog.method('CompiledChemicals', 'set_alias', rel=CH)
-    guard = [n for n in walk_no_nested(sa.node) if isinstance(n, ast.If) and 'alias in dct' in src(n.test) and 'is not chemical' in src(n.test)
-             and isinstance(n.body[0], ast.Raise)]
-    stores_in_else = guard and any(isinstance(x, ast.Subscript) and isinstance(x.ctx, ast.Store) and src(x.value) == 'self._index'
-                                   for s_ in guard[0].orelse for x in ast.walk(s_))
+    # every path that writes the name table excludes the scenario "the alias already names ANOTHER chemical": some test taken on
+    # the path evaluates, under that scenario, to the other outcome (three-valued evaluation over the resolved test)
+    from ..resolve import resolved, path_defs
+    idp, alp = sa.params[1], sa.params[2]
+    D = ('self.__dict__',)
+
+    def is_owner(x):
+        if isinstance(x, ast.Subscript) and src(x.value) in D and src(x.slice) == alp:
+            return True
+        return isinstance(x, ast.Call) and isinstance(x.func, ast.Attribute) and x.func.attr == 'get' and src(x.func.value) in D \
+            and x.args and src(x.args[0]) == alp
+
+    def is_chem(x):
+        return isinstance(x, ast.Subscript) and src(x.value) in D and src(x.slice) == idp
+
+    def ev(t):
+        """value of test t when the alias is in the table and names another chemical (None = unknown)"""
+        if isinstance(t, ast.UnaryOp) and isinstance(t.op, ast.Not):
+            v = ev(t.operand)
+            return None if v is None else not v
+        if isinstance(t, ast.BoolOp):
+            vs = [ev(v) for v in t.values]
+            if isinstance(t.op, ast.And):
+                return False if any(v is False for v in vs) else (True if all(v is True for v in vs) else None)
+            return True if any(v is True for v in vs) else (False if all(v is False for v in vs) else None)
+        if isinstance(t, ast.Compare) and len(t.ops) == 1:
+            a, b, op = t.left, t.comparators[0], t.ops[0]
+            if isinstance(op, (ast.In, ast.NotIn)) and src(a) == alp and src(b) in D:
+                return isinstance(op, ast.In)
+            if isinstance(op, (ast.Is, ast.IsNot)) and ((is_owner(a) and is_chem(b)) or (is_owner(b) and is_chem(a))):
+                return isinstance(op, ast.IsNot)
+        return None
+
+    sps, _ = run_paths(sa.node, follow_except=False)
+    n_w = 0
+    unguarded = None
+    for p in sps:
+        if p.raised:
+            continue
+        w = [e for e in p.events if e.kind == 'store' and e.target.startswith('self._index[')]
+        if not w:
+            continue
+        n_w += 1
+        excluded = False
+        for e in p.events:
+            if e.kind != 'cond' or not isinstance(e.stmt, ast.If) or p.events.index(e) > p.events.index(w[0]):
+                continue
+            v = ev(resolved(e.stmt.test, path_defs(p, e), keep={idp, alp}))
+            if v is not None and v != e.value:
+                excluded = True
+        if not excluded:
+            unguarded = w[0]
+    guard = n_w and unguarded is None
+    stores_in_else = guard
     if guard and stores_in_else:
-        d5.ok('CompiledChemicals.set_alias', 'an alias already naming another chemical is rejected before the table is written', sa, guard[0])
+        d5.ok('CompiledChemicals.set_alias', 'an alias already naming another chemical is rejected before the table is written (%d writing paths)' % n_w, sa)
     else:
         d5.fail('CompiledChemicals.set_alias', 'alias-guard', 'set_alias writes the name table without rejecting an alias already in use', sa, sa.node)
 
